@@ -139,6 +139,7 @@ class World:
         self.cbids = []        # callback ids handed to user code
         self.obs = []          # deliveries to user code
         self.parked = []       # positions at which user code saw a suspension (inv, path, tick)
+        self.log_calls = []    # log calls user code made (whether or not they were emitted)
 
     def enter(self, path, kind, **extra):
         d = self.d
@@ -344,6 +345,7 @@ class Interp:
         k = op["k"]
         w = self.w
         if k == "log":
+            w.log_calls.append({"inv": self.d.inv, "label": op["label"], "where": "gap", "tick": self.d.tick()})
             ctx.logger.info(op["label"])
             return []
         if k == "sleep":
@@ -376,6 +378,8 @@ class Interp:
             def fn(step_ctx):
                 ent = w.enter(path, "step")
                 if op.get("log"):
+                    w.log_calls.append({"inv": self.d.inv, "label": op["log"], "where": "step", "path": path,
+                                        "name": name, "attempt": ent["attempt"] + 1, "tick": self.d.tick()})
                     step_ctx.logger.info(op["log"])
                 try:
                     r = self._beh(beh, path, ent, item)
@@ -408,6 +412,8 @@ class Interp:
                 ent = w.enter(path + (2,), "submitter")
                 w.cbids.append({"path": path + (1,), "inv": self.d.inv, "id": callback_id, "via": "submitter"})
                 if op.get("log"):
+                    w.log_calls.append({"inv": self.d.inv, "label": op["log"], "where": "submitter", "path": path + (2,),
+                                        "tick": self.d.tick()})
                     wf_ctx.logger.info(op["log"])
                 try:
                     self._beh(beh, path + (2,), ent, item)
@@ -440,6 +446,8 @@ class Interp:
             def check(state, cctx):
                 ent = w.enter(path, "check", state=render(state))
                 if op.get("log"):
+                    w.log_calls.append({"inv": self.d.inv, "label": op["log"], "where": "check", "path": path,
+                                        "name": name, "attempt": ent["attempt"] + 1, "tick": self.d.tick()})
                     cctx.logger.info(op["log"])
                 try:
                     r = _check_fn(fspec, state, ent)
